@@ -224,7 +224,7 @@ func main() {
 	for _, o := range old {
 		keep := false
 		for _, gf := range files {
-			if filepath.Base(o) == gf.Name+".lean" {
+			if filepath.Base(o) == gf.Name+".lean" || filepath.Base(o) == "Facts.lean" {
 				keep = true
 			}
 		}
@@ -277,6 +277,28 @@ func main() {
 			if err := os.WriteFile(target, []byte(b.String()), 0o644); err != nil {
 				panic(err)
 			}
+		}
+	}
+	// structural fact tables (Gen/Facts.lean)
+	{
+		var b strings.Builder
+		b.WriteString("-- GENERATED by /verif/extract from /repo's current source. Do not edit.\nnamespace PC.Gen.Facts\n\n")
+		fields, e1 := structFields(root, "src/types/process.go", "ProcessConfig")
+		cmp, e2 := comparedFields(root, "src/types/process.go", "ProcessConfig", "Compare")
+		if e1 == nil && e2 == nil {
+			b.WriteString("/-- fields of `types.ProcessConfig`, in declaration order -/\ndef processConfigFields : List String := " + leanStringList(fields) + "\n\n")
+			b.WriteString("/-- fields compared by `ProcessConfig.Compare` -/\ndef comparedFields : List String := " + leanStringList(cmp) + "\n\n")
+			status["Facts.processConfigFields"] = "ok"
+			status["Facts.comparedFields"] = "ok"
+			facts["processConfigFields"] = fields
+			facts["comparedFields"] = cmp
+		} else {
+			status["Facts.comparedFields"] = "ERROR"
+		}
+		b.WriteString("end PC.Gen.Facts\n")
+		target := filepath.Join(gen, "Facts.lean")
+		if cur, err := os.ReadFile(target); err != nil || string(cur) != b.String() {
+			_ = os.WriteFile(target, []byte(b.String()), 0o644)
 		}
 	}
 	facts["translated"] = status
